@@ -194,7 +194,12 @@ def r3_isolation(ctx, prog):
     want_readers = ["context::init_subcontext_with_options", "context::provide_i18n_context_with_options_inner", "context::use_i18n_context", "fetch_translations::register::RegisterCtx::<L>::register"]
     readers = set()
     for n2, bb in prog.bodies.items():
-        if bb.crate != "leptos_i18n" or not any(re.search(r"prelude::(use_context|expect_context)$", callee_name(t2) or "") for _i2, t2 in bb.calls()):
+        lookups_ = [(t2.get("func", {}).get("const") or {}).get("fn_full", "") for _i2, t2 in bb.calls() if re.search(r"prelude::(use_context|expect_context)$", callee_name(t2) or "")]
+        # (a lookup of the translation *registry* is not a lookup of the locale context: RegisterCtx::register and ::provide_context - which
+        # reuses the registry of an enclosing provider - may do it; anything else counts)
+        if lookups_ and all("RegisterCtx" in f_ for f_ in lookups_) and re.search(r"RegisterCtx::<L>::(register|provide_context)$", M._root(n2)):
+            continue
+        if bb.crate != "leptos_i18n" or not lookups_:
             continue
         root2 = M._root(n2).split("leptos_i18n::")[-1]
         own2 = M.owner_of(prog, n2).split("leptos_i18n::")[-1]
